@@ -369,7 +369,7 @@ def instrument_job(job, a, wd):
 
 
 def cbmc_cmd(job, b, solver, extra=()):
-    cmd = ["cbmc", b, "--json-ui", "--verbosity", "6"]
+    cmd = ["cbmc", b]   # plain-text UI: --json-ui builds a trace for every failure (the canary!) and is 7x slower
     cmd += job.cbmc_flags
     if job.unwind is not None:
         cmd += ["--unwind", str(job.unwind), "--unwinding-assertions"]
@@ -381,20 +381,32 @@ def cbmc_cmd(job, b, solver, extra=()):
     return cmd
 
 
+_res_re = re.compile(r"^\[([^\]]+)\] (?:line (\d+) )?(.*): (SUCCESS|FAILURE|UNKNOWN|ERROR)$")
+_hdr_re = re.compile(r"^(\S.*) function (\S+)$")
+
+
 def parse_results(out):
-    try:
-        d = json.loads(out)
-    except Exception:
-        return None, "unparsable cbmc output"
-    res = None
+    """parse cbmc's plain-text result listing"""
+    if "** Results:" not in out:
+        tail = out[-400:].replace("\n", " | ")
+        return None, "no result section: " + tail
+    res = []
+    cur_file = ""
     msgs = []
-    for x in d:
-        if isinstance(x, dict):
-            if "result" in x:
-                res = x["result"]
-            if x.get("messageType") in ("ERROR",) or ("messageText" in x and "ignoring" in x.get("messageText", "")):
-                msgs.append(x.get("messageText", ""))
-    return res, "; ".join(msgs)
+    body = out[out.index("** Results:"):]
+    for l in body.splitlines():
+        m = _res_re.match(l)
+        if m:
+            res.append({"property": m.group(1), "description": m.group(3), "status": m.group(4),
+                        "sourceLocation": {"line": m.group(2) or "0", "file": cur_file}})
+            continue
+        m = _hdr_re.match(l)
+        if m:
+            cur_file = m.group(1)
+    for l in out.splitlines():
+        if "ignoring" in l:
+            msgs.append(l.strip())
+    return res, "; ".join(msgs[:3])
 
 
 def solve(job, b, wd):
@@ -403,14 +415,14 @@ def solve(job, b, wd):
     procs = []
     for s in solvers:
         cmd = cbmc_cmd(job, b, s)
-        outp = os.path.join(wd, "cbmc.%s.json" % s)
+        outp = os.path.join(wd, "cbmc.%s.txt" % s)
 
         def pre():
             os.setsid()
             import resource
             resource.setrlimit(resource.RLIMIT_AS, (MEM_KB * 1024, MEM_KB * 1024))
         f = open(outp, "w")
-        p = subprocess.Popen(cmd, stdout=f, stderr=subprocess.DEVNULL, preexec_fn=pre, cwd=wd)
+        p = subprocess.Popen(cmd, stdout=f, stderr=subprocess.STDOUT, preexec_fn=pre, cwd=wd)
         procs.append((s, p, outp, f, cmd))
     t0 = time.time()
     winner = None
